@@ -335,3 +335,67 @@ class QuaternionToRotationMatrix:
                 K.ensure_eq(f"det[{n}]", SA.det3(g[n]), 1, text="R(q) is a proper rotation (det = 1)")
         w, x, y, z = qs[0]
         K.ensure_eq("mustfail", g[0], SA.quaternion_matrix([z, w, x, y]), text="(x, y, z, w) order instead of (w, x, y, z)", must_fail=True)
+
+
+@register
+class RotationConversions:
+    """Bounded: matrix <-> quaternion <-> axis-angle round trips (sqrt / acos / atan2 branches), seeded sweep including the
+    near-0 and near-pi branches and every dominant-axis branch of rotation_matrix_to_quaternion."""
+
+    target = "deepali.core._kornia:rotation_matrix_to_quaternion"
+    properties = ("C08",)
+    symbolic = False
+    n_bounded = {"quick": 60, "thorough": 600}
+    tol = 2e-4
+
+    def cases(self, tier):
+        for axis in ("x", "y", "z", "free"):
+            for rng_ in ("small", "mid", "large"):
+                yield {"axis": axis, "angle": rng_}
+
+    def run(self, case, K):
+        import math
+
+        from deepali.core import linalg as LA
+
+        r = K.rng
+        lo, hi = {"small": (0.0, 0.3), "mid": (0.3, 2.2), "large": (2.2, math.pi - 1e-3)}[case["angle"]]
+        ang = r.uniform(lo, hi) * (1 if r.random() < 0.5 else -1)
+        ax = np.array([r.gauss(0, 1) for _ in range(3)])
+        if case["axis"] != "free":
+            i = "xyz".index(case["axis"])
+            ax = ax * 0.15
+            ax[i] = 1.0 if r.random() < 0.5 else -1.0
+        ax = ax / np.linalg.norm(ax)
+        K.env.update({"angle": ang, "ax0": float(ax[0]), "ax1": float(ax[1]), "ax2": float(ax[2])})
+        aa = torch.tensor(ax * ang, dtype=torch.float64).unsqueeze(0)
+        q = torch.tensor([math.cos(ang / 2)] + list(math.sin(ang / 2) * ax), dtype=torch.float64).unsqueeze(0)
+        Kx = np.array([[0, -ax[2], ax[1]], [ax[2], 0, -ax[0]], [-ax[1], ax[0], 0]])
+        Rref = np.eye(3) + math.sin(ang) * Kx + (1 - math.cos(ang)) * (Kx @ Kx)  # Rodrigues
+        t = "C08: all conversions between Euler angles, quaternions, axis-angle vectors and matrices round-trip to the same rotation"
+        R1 = K.call(LA.quaternion_to_rotation_matrix, q)
+        R2 = K.call(LA.angle_axis_to_rotation_matrix, aa)
+        for name, R in (("q->R", R1), ("aa->R", R2)):
+            if K.ensure_returns(R):
+                K.ensure_eq(name, R.reshape(3, 3), Rref, text=t + f" [{name} vs Rodrigues' formula]")
+        Rt = torch.tensor(Rref, dtype=torch.float64).unsqueeze(0)
+        q2 = K.call(LA.rotation_matrix_to_quaternion, Rt)
+        if K.ensure_returns(q2):
+            back = K.call(LA.quaternion_to_rotation_matrix, q2)
+            if K.ensure_returns(back):
+                K.ensure_eq("R->q->R", back.reshape(3, 3), Rref, text=t + " [matrix -> quaternion -> matrix]")
+        a2 = K.call(LA.rotation_matrix_to_angle_axis, Rt)
+        if K.ensure_returns(a2):
+            back = K.call(LA.angle_axis_to_rotation_matrix, a2)
+            if K.ensure_returns(back):
+                K.ensure_eq("R->aa->R", back.reshape(3, 3), Rref, text=t + " [matrix -> axis-angle -> matrix]")
+        q3 = K.call(LA.angle_axis_to_quaternion, aa)
+        if K.ensure_returns(q3):
+            back = K.call(LA.quaternion_to_rotation_matrix, q3)
+            if K.ensure_returns(back):
+                K.ensure_eq("aa->q->R", back.reshape(3, 3), Rref, text=t + " [axis-angle -> quaternion -> matrix]")
+        a3 = K.call(LA.quaternion_to_angle_axis, q)
+        if K.ensure_returns(a3):
+            back = K.call(LA.angle_axis_to_rotation_matrix, a3)
+            if K.ensure_returns(back):
+                K.ensure_eq("q->aa->R", back.reshape(3, 3), Rref, text=t + " [quaternion -> axis-angle -> matrix]")
